@@ -1,8 +1,51 @@
-(* Props/C12.v — property theorems only (model: Syntax/CoreGrammar.v, core token fragment). *)
-From Verif Require Import Base.Str Syntax.CoreGrammar Proofs.CoreGrammarProofs.
+(* Props/C12.v — property theorems only (model: Syntax/CoreGrammar.v, core token fragment).
 
-Example C12_spec_nonvacuous :
-  accepts sh_bash [TIf; TName; TSemi; TThen; TName; TSemi; TFi] = true /\
-  accepts sh_dash [TIf; TName; TSemi; TThen; TName; TSemi] = false.
-Proof. split; reflexivity. Qed.
-Print Assumptions C12_spec_nonvacuous.
+   Full statement aimed at (NOT proved for unbounded length):
+     C12_accepts_iff_grammar : forall ts, go_dev ts = false ->
+        ((exists t, parse_core false ts = POk t) <-> accepts sh_bash ts = true)
+   and the same for (parse_core true, sh_dash).  go_dev is the decidable (over-approximating) union of
+   the known divergence classes KF-C12-1..5 and the documented `!` difference.
+   Proved below: the statement for every token list of length <= 4 (31^0+..+31^4 = 954,305 lists, of which
+   the in-scope ones are checked exhaustively inside the kernel), plus `_refuted` witnesses showing that each
+   known class is a real divergence of the model (= of the Go parser, by the code leg) from the shells' grammar. *)
+From Verif Require Import Base.Str Syntax.CoreGrammar Proofs.CoreGrammarBounded.
+
+Theorem C12_accepts_iff_grammar_upto4_bash_partial : forall ts, length ts <= 4 -> go_dev ts = false ->
+  accepted (parse_core false ts) = accepts sh_bash ts.
+Proof. exact agree4_bash. Qed.
+Print Assumptions C12_accepts_iff_grammar_upto4_bash_partial.
+
+Theorem C12_accepts_iff_grammar_upto4_dash_partial : forall ts, length ts <= 4 -> go_dev ts = false ->
+  accepted (parse_core true ts) = accepts sh_dash ts.
+Proof. exact agree4_dash. Qed.
+Print Assumptions C12_accepts_iff_grammar_upto4_dash_partial.
+
+Theorem C12_in_as_command_refuted :
+  accepted (parse_core false [TIn; TName]) = true /\ accepts sh_bash [TIn; TName] = false.
+Proof. exact in_as_command_refuted. Qed.
+Print Assumptions C12_in_as_command_refuted.
+
+Theorem C12_funcdecl_body_simple_refuted :
+  accepted (parse_core false [TName; TLparen; TRparen; TName]) = true /\ accepts sh_bash [TName; TLparen; TRparen; TName] = false.
+Proof. exact funcdecl_body_simple_refuted. Qed.
+Print Assumptions C12_funcdecl_body_simple_refuted.
+
+Theorem C12_funcdecl_body_negated_refuted :
+  accepted (parse_core true [TName; TLparen; TRparen; TBang; TName]) = true /\ accepts sh_dash [TName; TLparen; TRparen; TBang; TName] = false.
+Proof. exact funcdecl_body_negated_refuted. Qed.
+Print Assumptions C12_funcdecl_body_negated_refuted.
+
+Theorem C12_leading_redirect_reserved_refuted :
+  accepted (parse_core false [TRedir; TName; TThen; TName]) = false /\ accepts sh_bash [TRedir; TName; TThen; TName] = true.
+Proof. exact leading_redirect_reserved_refuted. Qed.
+Print Assumptions C12_leading_redirect_reserved_refuted.
+
+Theorem C12_io_number_target_refuted :
+  accepted (parse_core false [TName; TRedir; TIoRedir; TName]) = true /\ accepts sh_bash [TName; TRedir; TIoRedir; TName] = false.
+Proof. exact io_number_target_refuted. Qed.
+Print Assumptions C12_io_number_target_refuted.
+
+Example C12_scope_nonvacuous : go_dev [TIf; TName; TSemi; TThen] = false /\ go_dev [TName; TPipe; TName; TAmp] = false /\
+  accepts sh_bash [TName; TPipe; TName; TAmp] = true.
+Proof. exact scope_nonvacuous. Qed.
+Print Assumptions C12_scope_nonvacuous.
